@@ -248,9 +248,27 @@ func (f *Frame) enterLoop(li *loopInfo, cur *State, rc *runCtx) {
 	bases := map[string][]T{}
 	variant := map[string]bool{}
 	everything := false
+	var exceptKeys []hk
+	firstAll := true
 	for _, w := range log {
 		if w.key == "*" {
 			everything = true
+			if firstAll {
+				exceptKeys = w.except
+				firstAll = false
+			} else {
+				// keep only exceptions common to all
+				var keep []hk
+				for _, a := range exceptKeys {
+					for _, b := range w.except {
+						if a.key == b.key && a.embOf == b.embOf {
+							keep = append(keep, a)
+							break
+						}
+					}
+				}
+				exceptKeys = keep
+			}
 			continue
 		}
 		written[w.key] = w.sort
@@ -305,9 +323,29 @@ func (f *Frame) enterLoop(li *loopInfo, cur *State, rc *runCtx) {
 				its[k] = true
 			}
 		}
+		olds := map[string]T{}
+		for _, k := range exceptKeys {
+			if _, direct := written[k.key]; direct {
+				continue // also written directly in the loop: no frame
+			}
+			olds[k.key] = u.heapGet(li.pre, k.key, k.sort)
+		}
 		u.havocAll(cur)
 		for k := range its {
 			u.heapHavoc(cur, k, written[k])
+		}
+		done := map[string]T{}
+		for _, k := range exceptKeys {
+			old, ok := olds[k.key]
+			if !ok {
+				continue
+			}
+			nh, ok := done[k.key]
+			if !ok {
+				nh = u.heapHavoc(cur, k.key, k.sort)
+				done[k.key] = nh
+			}
+			u.assume(cur, T{fmt.Sprintf("(forall ((r!q Int)) (! (=> (and (<= (root r!q) %s) %s) (= (select %s r!q) (select %s r!q))) :pattern ((select %s r!q))))", li.pre.alloc.S, u.kindCond(k), nh.S, old.S, nh.S), SBool})
 		}
 		keys = nil
 		li.havocked = nil
